@@ -2,7 +2,7 @@
    Spec/Wire.v, the decidable side conditions of the C02 theorems, and printers to the
    canonical [cv] type for the correspondence checks (T2/T3).  Definitions only. *)
 From BP Require Import Base.Prelude Model.Types Model.Float Model.Utf8 Model.Object Model.Eq Model.TimeCore.
-From BP Require Import Spec.Varint Spec.Wire.
+From BP Require Import Model.WellFormed Spec.Varint Spec.Wire.
 
 (* ------------------------------------------------------------------ abs *)
 Definition abs_scalar (v : pv) : aval :=
@@ -239,3 +239,73 @@ Fixpoint cv_of_aval (a : aval) : cv :=
 Definition cv_of_aval_opt (o : option aval) : cv := match o with Some a => cv_of_aval a | None => CE EValue end.
 Definition cv_abs_res (sc : schema) (r : result obj) : cv :=
   match r with Ok o => cv_of_aval (abs_obj sc o) | Err _ => CE EValue end.
+
+Definition supported_bytes (sc : schema) (c : nat) (bs : list byte) : bool :=
+  match parse_wire bs with Some rs => supported (S (length bs)) sc c rs | None => false end.
+
+(* ------------------------------------------------------------------ side condition of C02_encode_legal *)
+(* What the encoder needs beyond in_range for its output to denote abs m exactly.  Each conjunct names a
+   (known, documented in the check's notes) way in which betterproto's object state holds more than its
+   bytes say:
+   - unknown bytes must themselves be a legal record sequence (they are copied verbatim);
+   - a -0.0 in a float/double field without presence, or inside a wrapper, equals the default and is skipped;
+   - a float32 field must hold a float32 value (anything else is rounded on the wire);
+   - a plain Timestamp/Duration field holding the epoch / zero span is skipped (datetime has no presence);
+   - a plain message field whose value has _serialized_on_wire = False but non-default content is emitted
+     although betterproto itself reports it as not present (known finding K12 of C06);
+   - dict keys are unique (a Python dict cannot hold duplicates). *)
+Definition float_plain_ok (v : pv) : bool :=
+  match v with PFloat b => negb (f64_is_zero b) || (b =? 0) | _ => true end.
+Definition float32_ok (t : ptype) (v : pv) : bool :=
+  match t, v with TFloat, PFloat b => f32_representable b | _, _ => true end.
+
+Fixpoint keys_unique (sc : schema) (d : list (pv * pv)) : bool :=
+  match d with
+  | [] => true
+  | (k, _) :: r => negb (existsb (fun kv => pv_eq sc (fst kv) k) r) && keys_unique sc r
+  end.
+
+Definition parses (b : list byte) : bool := match parse_wire b with Some _ => true | None => false end.
+
+Fixpoint enc_faithful_pv (sc : schema) (v : pv) {struct v} : bool :=
+  match v with
+  | PMsg (Obj c raw sow unk cur) =>
+      parses unk &&
+      (fix go (raw : list pv) (fs : list fdesc) {struct raw} : bool :=
+         match raw, fs with
+         | x :: raw', f :: fs' =>
+             (match card_of f with
+              | Implicit => float_plain_ok x && float32_ok (fty f) x
+              | Explicit =>
+                  match fhint f, x with
+                  | HPlain _, PDatetime us | HPlain _, PTimedelta us => negb (us =? 0)
+                  | HPlain _, PMsg o' => (osow o' || is_default sc f x) && enc_faithful_pv sc x
+                  | _, PMsg _ => enc_faithful_pv sc x
+                  | _, _ => match fwraps f with
+                            | Some w => float_plain_ok x && float32_ok w x
+                            | None => float32_ok (fty f) x
+                            end
+                  end
+              | Oneof _ => float32_ok (fty f) x && enc_faithful_pv sc x
+              | Repeated =>
+                  match x with
+                  | PList l => (fix all (l : list pv) : bool :=
+                                  match l with [] => true | y :: l' => float32_ok (fty f) y && enc_faithful_pv sc y && all l' end) l
+                  | _ => true
+                  end
+              | MapOf =>
+                  match x, fmap f with
+                  | PDict d, Some (_, vt) =>
+                      keys_unique sc d &&
+                      (fix all (d : list (pv * pv)) : bool :=
+                         match d with [] => true | (_, y) :: d' => float32_ok vt y && enc_faithful_pv sc y && all d' end) d
+                  | _, _ => true
+                  end
+              end) && go raw' fs'
+         | _, _ => true
+         end) raw (cfields (get_class sc c))
+  | _ => true
+  end.
+
+Definition enc_faithful (sc : schema) (o : obj) : bool :=
+  Model.WellFormed.in_range sc o && enc_faithful_pv sc (PMsg o).
